@@ -406,12 +406,36 @@ struct Shared
   volatile long cur;
   volatile long doneUpTo;
   volatile long long beat;
+  volatile int abandoned;
 };
+inline Shared *&currentShared()
+{
+  static Shared *p = 0;
+  return p;
+}
+// Called inside a forked case: stop this child right now (e.g. to cut short a runaway
+// loop after its violation has been recorded); the parent continues with the next case
+// without recording a crash.
+inline void abandonChild();
+// in a forked child: send stderr to $VH_OUT/err.<pid> so that sanitizer messages printed
+// there (UBSan ignores log_path) can be attributed to the case that produced them
+inline void childRedirectStderr()
+{
+  if (!getenv("VH_OUT"))
+    return;
+  std::string p = st().outDir + "/err." + std::to_string((long long)getpid());
+  int fd        = open(p.c_str(), O_WRONLY | O_CREAT | O_APPEND, 0644);
+  if (fd >= 0) {
+    dup2(fd, 2);
+    close(fd);
+  }
+}
 
 inline void forkedCases(long n, const std::function<void(long)> &fn, int timeoutMs = 20000, long batch = 2000,
                         const std::function<std::string(long)> &describe = std::function<std::string(long)>())
 {
   Shared *sh = (Shared *)mmap(0, sizeof(Shared), PROT_READ | PROT_WRITE, MAP_SHARED | MAP_ANONYMOUS, -1, 0);
+  currentShared() = sh;
   long k     = 0;
   std::map<long, int> hangs;
   if (st().onlyCase >= 0) {
@@ -420,8 +444,9 @@ inline void forkedCases(long n, const std::function<void(long)> &fn, int timeout
   }
   while (k < n) {
     long end  = k + batch < n ? k + batch : n;
-    sh->cur   = k;
-    sh->beat  = 0;
+    sh->cur       = k;
+    sh->beat      = 0;
+    sh->abandoned = 0;
     fflush(stdout);
     pid_t pid = fork();
     if (pid < 0) {
@@ -429,6 +454,7 @@ inline void forkedCases(long n, const std::function<void(long)> &fn, int timeout
       break;
     }
     if (pid == 0) {
+      childRedirectStderr();
       for (long i = k; i < end; ++i) {
         sh->cur = i;
         sh->beat++;
@@ -473,6 +499,10 @@ inline void forkedCases(long n, const std::function<void(long)> &fn, int timeout
       k = end;
       continue;
     }
+    if (WIFEXITED(status) && WEXITSTATUS(status) == 0 && sh->abandoned) {
+      k = at + 1;
+      continue;
+    }
     // abnormal end while working on case `at`
     emit(J().kv("t", "crash")
              .kv("case", describe ? describe(at) : std::to_string(at))
@@ -483,7 +513,16 @@ inline void forkedCases(long n, const std::function<void(long)> &fn, int timeout
              .str());
     k = at + 1;
   }
+  currentShared() = 0;
   munmap(sh, sizeof(Shared));
+}
+
+inline void abandonChild()
+{
+  flushStats();
+  if (currentShared())
+    currentShared()->abandoned = 1;
+  _exit(0);
 }
 
 // Run one closure in a forked child (used for single hostile probes).
@@ -497,6 +536,7 @@ inline int forkedOne(const std::string &desc, const std::function<void()> &fn, i
     return 2;
   }
   if (pid == 0) {
+    childRedirectStderr();
     fn();
     flushStats();
     _exit(0);
